@@ -123,8 +123,8 @@ def main() -> None:
         checks.append(
             {
                 "property_id": pid,
-                "quick_cmd": f"cd /verif && timeout 1500 /venv/bin/python -m checks.run {pid} --tier quick",
-                "thorough_cmd": f"cd /verif && timeout 3000 /venv/bin/python -m checks.run {pid} --tier thorough",
+                "quick_cmd": f"cd /verif && timeout 2400 /venv/bin/python -m checks.run {pid} --tier quick",
+                "thorough_cmd": f"cd /verif && timeout 7200 /venv/bin/python -m checks.run {pid} --tier thorough",
                 "evidence_file": f"/verif/evidence/{pid}.json",
                 "replay_cmd_template": "cd /verif && /venv/bin/python -m dsim.replay {path}",
                 "engine": "dsim",
